@@ -27,7 +27,11 @@ def rand_member(rng):
     """a finite real rrule and the int stream it yields; small grid so that members coincide"""
     from dateutil import rrule as R
     kind = rng.random()
-    if kind < 0.7:
+    if kind < 0.3:
+        # long members: a partial iteration leaves the cache PARTIALLY filled (the fill batch is 10)
+        p = dict(freq=rng.choice([R.HOURLY, R.DAILY, R.MINUTELY]), dtstart=rrlib.to_dt(rng.choice([0, 3600, 86400])),
+                 interval=rng.choice([1, 1, 2, 3]), count=rng.randint(15, 40))
+    elif kind < 0.75:
         p = dict(freq=rng.choice([R.HOURLY, R.DAILY, R.HOURLY, R.MINUTELY]), dtstart=rrlib.to_dt(rng.choice([0, 0, 3600, 86400, 7200])),
                  interval=rng.choice([1, 1, 2, 3, 12, 24]), count=rng.choice([0, 1, 2, 3, 5, 8, 11, 13]))
     else:
@@ -67,7 +71,7 @@ def gen_history(rng, mode="plain"):
                 else:
                     rule, stream = rand_member(rng)
                     members.append((rule, stream))
-                pool += stream[:6]
+                pool += stream[:6] + rng.sample(stream, min(len(stream), 6)) + [x + 1 for x in stream[10:14]]   # also far beyond any cached prefix
                 ops.append((k, (rule, stream)))
             else:
                 ops.append((k, rand_date(rng, pool)))
@@ -98,16 +102,18 @@ def op_wire(op):
     return "q" + q_wire(p)
 
 
-def run_impl(cache, ops):
-    """run the history on a real rruleset; returns observations (canonical strings or '-'), expectations
-    (set algebra on the members; for kept iterators: the next k instants of the sequence at open time), stale flag"""
+def run_impl(cache, ops, judge_after_stale=True):
+    """run the history on a real rruleset.  Returns observations (canonical strings or '-'), expectations (set algebra on
+    the members; for kept iterators: the next k instants of the sequence at open time; None = not judged), and for every op
+    whether it lies AFTER a stale resume that really advanced (k >= 1) with no mutator in between (the window in which
+    D-C10-stale can show)."""
     from dateutil import rrule as R
     s = R.rruleset(cache=cache)
     inc, exc = set(), set()
-    obs, want = [], []
+    obs, want, after_stale = [], [], []
     opened = []          # [iterator, mutators seen at open time, expected list at open time, consumed]
     muts = 0
-    stale_resume = False
+    contaminated = False
 
     def take(ent, k):
         it, m0, L0, c = ent
@@ -120,31 +126,41 @@ def run_impl(cache, ops):
         ent[3] = min(len(L0), c + k)
         return o, w
     for k, p in ops:
+        if k in ("rr", "xr", "rd", "xd"):
+            muts += 1
+            contaminated = False            # a mutator re-invalidates: the object is healthy again
         if k == "rr":
-            s.rrule(p[0]); inc.update(p[1]); muts += 1
+            s.rrule(p[0]); inc.update(p[1])
         elif k == "xr":
-            s.exrule(p[0]); exc.update(p[1]); muts += 1
+            s.exrule(p[0]); exc.update(p[1])
         elif k == "rd":
-            s.rdate(rrlib.to_dt(p)); inc.add(p); muts += 1
+            s.rdate(rrlib.to_dt(p)); inc.add(p)
         elif k == "xd":
-            s.exdate(rrlib.to_dt(p)); exc.add(p); muts += 1
+            s.exdate(rrlib.to_dt(p)); exc.add(p)
         if k == "q":
             obs.append(rrlib.impl_query(s, p).replace(" ", "_"))
-            want.append(py_query(sorted(inc - exc), p).replace(" ", "_"))
+            w = py_query(sorted(inc - exc), p).replace(" ", "_")
+            want.append(w if (judge_after_stale or not contaminated) else None)
+            after_stale.append(contaminated)
         elif k == "open":
             ent = [iter(s), muts, sorted(inc - exc), 0]
             opened.append(ent)
             o, w = take(ent, p)
-            obs.append(o); want.append(w)
+            obs.append(o); want.append(w if (judge_after_stale or not contaminated) else None)
+            after_stale.append(contaminated)
         elif k == "resume":
             ent = opened[p[0]]
-            if ent[1] != muts:
-                stale_resume = True
+            stale = ent[1] != muts
             o, w = take(ent, p[1])
-            obs.append(o); want.append(w if ent[1] == muts else None)     # what a stale iterator itself yields is not judged
+            obs.append(o)
+            # what a stale iterator itself yields is not judged; a fresh one is judged like a query
+            want.append(None if stale else (w if (judge_after_stale or not contaminated) else None))
+            after_stale.append(contaminated)
+            if stale and p[1] >= 1:
+                contaminated = True
         else:
-            obs.append("-"); want.append("-")
-    return obs, want, stale_resume
+            obs.append("-"); want.append("-"); after_stale.append(contaminated)
+    return obs, want, after_stale
 
 
 def correspondence(ctx):
@@ -187,7 +203,7 @@ def correspondence(ctx):
         cache = rng.random() < 0.6
         obs, want, st = run_impl(cache, ops)
         ctx.count("corr_mode_" + mode)
-        if st:
+        if any(st):
             ctx.count("corr_histories_with_stale_resume")
         reqs.append("rset.run %d %s" % (int(cache), ";".join(op_wire(o) for o in ops)))
         exp.append("ok " + ";".join(obs))
@@ -216,21 +232,37 @@ def describe(ops):
     return ";".join(out)
 
 
+def nontrivial_history(ops, obs):
+    """the stated rule: at least one observation after at least one inclusion member"""
+    seen_member = False
+    for (k, p), o in zip(ops, obs):
+        if k in ("rr", "rd"):
+            seen_member = True
+        elif o != "-" and seen_member:
+            return True
+    return False
+
+
 def oracle(ctx):
     """Python set algebra on list(member) against every observation made on the real set object"""
     rng = ctx.subrng("oracle")
     n = ctx.budget(2000, 24000)
+    pending = []          # failures inside a stale window: classified after asking the model
+    nsamples = 0
     for i in range(n):
-        ops = gen_history(rng, ["plain", "live", "live", "stale-rr", "stale"][i % 5])
+        mode = ["plain", "live", "live", "stale-rr", "stale"][i % 5]
+        ops = gen_history(rng, mode)
         cache = rng.random() < 0.6
-        obs, want, stale_resume = run_impl(cache, ops)
+        # after a stale resume the model is faithful only when the later mutators are rrule/exrule (stale-rr): only then
+        # are the observations in the stale window judged (and they are KNOWN only if the model reproduces them)
+        obs, want, after_stale = run_impl(cache, ops, judge_after_stale=(mode != "stale"))
         key = (cache, describe(ops))
-        nontriv = any(o != "-" for o in obs)
+        nontriv = nontrivial_history(ops, obs)
         ctx.case(key, nontrivial=nontriv)
         ctx.count("cache_on" if cache else "cache_off")
         ctx.count("history_len_%02d" % len(ops))
-        if stale_resume:
-            ctx.count("histories_with_stale_resume")
+        if any(after_stale):
+            ctx.count("histories_with_stale_window")
         for (k, p), o, w in zip(ops, obs, want):
             if k == "q":
                 ctx.count("obs_" + p[0])
@@ -240,34 +272,45 @@ def oracle(ctx):
                 ctx.count("op_" + k)
         for j, (o, w) in enumerate(zip(obs, want)):
             if w is not None and o != w:
-                ctx.violation("observation %d (%s) of history %s (cache=%s): got %s, set algebra on the members gives %s"
-                              % (j, op_wire(ops[j]), describe(ops)[:300], cache, o[:200], w[:200]),
-                              {"cache": cache, "history": describe(ops), "stale_resume": stale_resume, "failing_op": j},
-                              {"impl": o, "want": w})
+                case = {"cache": cache, "history": describe(ops), "failing_op": j, "after_stale_resume": bool(after_stale[j]),
+                        "model_reproduces": False}
+                what = ("observation %d (%s) of history %s (cache=%s): got %s, set algebra on the members gives %s"
+                        % (j, op_wire(ops[j]), describe(ops)[:300], cache, o[:200], w[:200]))
+                if after_stale[j]:
+                    pending.append((what, case, o, w, "rset.run %d %s" % (int(cache), ";".join(op_wire(x) for x in ops)), j))
+                else:
+                    ctx.violation(what, case, {"impl": o, "want": w})
                 break
-        if i < 3:
+        if nontriv and nsamples < 3:
+            nsamples += 1
             ctx.sample({"cache": cache, "history": describe(ops)[:400], "observations": [o[:80] for o in obs]})
     # the documented witness of D-C10-stale, replayed on the implementation on every run
-    from dateutil import rrule as R
-    s = R.rruleset(cache=True)
-    s.rrule(rrlib.daily(13, False))
-    try:
-        it = iter(s); next(it)
-        s.rdate(rrlib.to_dt(20 * 86400))
-        list(it)
-        got = len(list(s))
-    except Exception as ex:
-        got = "err " + type(ex).__name__
+    wit = [("rr", (rrlib.daily(13, False), [86400 * k for k in range(13)])), ("open", 1), ("rd", 20 * 86400), ("resume", (0, 100)), ("q", ("all",)), ("q", ("cnt",))]
+    obs, want, after_stale = run_impl(True, wit)
     ctx.case(("witness-stale",), nontrivial=True)
-    if got != 14:
-        ctx.violation("witness D-C10-stale: after a stale iterator finished, list(set) has %d items, expected 14" % got,
-                      {"cache": True, "history": "rr[0,86400,...x13];o1;rd1728000;u0:100;qall", "stale_resume": True, "failing_op": 4},
-                      {"impl": got, "want": 14})
+    for j, (o, w) in enumerate(zip(obs, want)):
+        if w is not None and o != w:
+            pending.append(("witness D-C10-stale: observation %d (%s): got %s, set algebra gives %s" % (j, op_wire(wit[j]), o[:120], w[:120]),
+                            {"cache": True, "history": describe(wit), "failing_op": j, "after_stale_resume": bool(after_stale[j]), "model_reproduces": False},
+                            o, w, "rset.run 1 %s" % ";".join(op_wire(x) for x in wit), j))
+            break
+    # KNOWN only if the Lean model of the code (rset.run) reproduces exactly the observation the implementation made
+    if pending:
+        try:
+            got = ctx.driver([p[4] for p in pending])
+        except Exception:
+            got = ["-"] * len(pending)
+        for (what, case, o, w, req, j), g in zip(pending, got):
+            mobs = g[3:].split(";") if g.startswith("ok ") else []
+            case["model_reproduces"] = bool(j < len(mobs) and mobs[j] == o)
+            ctx.count("stale_window_failures_model_%s" % ("agrees" if case["model_reproduces"] else "differs"))
+            ctx.violation(what, case, {"impl": o, "want": w, "model": mobs[j] if j < len(mobs) else None})
 
 
 KNOWN = {
-    # an iterator created before a mutator and advanced after it: decidable on the canonical history
-    "D-C10-stale": lambda v: bool(v["case"].get("stale_resume")),
+    # D-C10-stale, positional and mechanism-specific: the failing observation lies after a stale resume that really advanced
+    # an iterator, with no mutator in between, AND the Lean model of the code predicts exactly the observation made
+    "D-C10-stale": lambda v: bool(v["case"].get("after_stale_resume")) and bool(v["case"].get("model_reproduces")),
 }
 
 
